@@ -97,6 +97,13 @@ func genC15(g *gen) {
 			}
 			g.prog.Threads = append(g.prog.Threads, th)
 		}
+		// now and then: two threads that do nothing but derive configurations from each other's results
+		if g.chance(0.4) {
+			for k := 0; k < 2; k++ {
+				g.prog.Threads = append(g.prog.Threads, &Thread{Mgr: m, Ops: []*Op{
+					{Kind: "newcfg", Stub: "and", Cfg: 0, N: 1}, {Kind: "barrier", Cfg: 1, N: 2}, {Kind: "cfgstorm", N: 4 + g.r.IntN(6), Cfg: g.r.IntN(6)}}})
+			}
+		}
 		// a thread that keeps reading manager / node state through the accessors
 		g.prog.Threads = append(g.prog.Threads, &Thread{Mgr: m, Ops: []*Op{{Kind: "inspect-loop", N: 200 + g.r.IntN(400), Cfg: g.r.IntN(8)}}})
 		if g.chance(0.3) {
